@@ -18,7 +18,7 @@ from wsproto.events import (
 from wsproto.extensions import Extension, PerMessageDeflate
 from wsproto.frame_protocol import CloseReason
 from wsproto.handshake import server_extensions_handshake, WEBSOCKET_VERSION
-from wsproto.utilities import generate_accept_token, LocalProtocolError, split_comma_header
+from wsproto.utilities import generate_accept_token, LocalProtocolError
 
 from .events import Body, Data, EndBody, EndData, Event, Request, Response, StreamClosed
 from ..config import Config
@@ -54,6 +54,12 @@ class FrameTooLargeError(Exception):
     pass
 
 
+def _split_comma_header(value: bytes) -> List[str]:
+    # As wsproto's split_comma_header, but tolerant of the non-ASCII
+    # (obs-text) octets that are valid in a header value.
+    return [piece.strip() for piece in value.decode("latin1").split(",")]
+
+
 class Handshake:
     def __init__(self, headers: List[Tuple[bytes, bytes]], http_version: str) -> None:
         self.accepted = False
@@ -67,13 +73,13 @@ class Handshake:
         for name, value in headers:
             name = name.lower()
             if name == b"connection":
-                self.connection_tokens = split_comma_header(value)
+                self.connection_tokens = _split_comma_header(value)
             elif name == b"sec-websocket-extensions":
-                self.extensions = split_comma_header(value)
+                self.extensions = _split_comma_header(value)
             elif name == b"sec-websocket-key":
                 self.key = value
             elif name == b"sec-websocket-protocol":
-                self.subprotocols = split_comma_header(value)
+                self.subprotocols = _split_comma_header(value)
             elif name == b"sec-websocket-version":
                 self.version = value
             elif name == b"upgrade":
